@@ -48,7 +48,7 @@ def run_functions(index, registry, quals, models, timeout_ms, seed, second=None,
     for q in quals:
         rec = {"function": q, "status": "ok", "obligations": [], "notes": {}, "covers": []}
         try:
-            fi = index.find(q)
+            fi = index.find(q.split("#")[0])
             if fi is None:
                 raise Undecided("function %s not found in the current source" % q)
             eng, obs, cx, t = verify_function(index, registry, q, models, pid=pid)
@@ -60,7 +60,9 @@ def run_functions(index, registry, quals, models, timeout_ms, seed, second=None,
                 obs = [o for o in obs if only in o.name]
             rec["source_hash"] = fi.hash
             rec["symexec_s"] = round(t, 3)
-            res = discharge(obs, cx.facts, timeout_ms=timeout_ms, seed=seed, second=second)
+            # the proof search is deterministic: the solver seed is fixed (VERIF_SEED drives the sampling layers, the choice of
+            # self-test mutants and the second-solver sample only)
+            res = discharge(obs, cx.facts, timeout_ms=timeout_ms, seed=0, second=second)
             for ob, r in zip(obs, res):
                 rec["obligations"].append({"name": ob.name, "kind": ob.kind, "top": ob.top, "props": list(ob.props), "where": ob.where,
                                            "clause": ob.clause.expr if ob.clause is not None else None, **r})
@@ -121,7 +123,7 @@ def summarize(recs):
     return tot, dis, failed, undecided, errors
 
 
-def run_mutants(registry, mutants, models, timeout_ms, seed, only=None, pid=None):
+def run_mutants(registry, mutants, models, timeout_ms, seed, only=None, pid=None, scans=()):
     """In-memory mutations of the freshly parsed source; each must fail its expected obligation."""
     out = []
     for m in mutants:
@@ -145,6 +147,12 @@ def run_mutants(registry, mutants, models, timeout_ms, seed, only=None, pid=None
             idx = RepoIndex(overrides={m["path"]: msrc})
             recs = run_functions(idx, registry, m["functions"], models, min(timeout_ms, 6000), seed, pid=pid, only=m["expect"])
             _, _, failed, und, err = summarize(recs)
+            if m["expect"].startswith("scan::"):
+                # obligations decided by the syntactic / effect scans are re-run on the mutated source as well
+                for fn in scans:
+                    for o in fn(idx, registry):
+                        if o.get("result") != "unsat":
+                            failed.append(o)
             rec["failed"] = [o["name"] for o in failed]
             rec["not_proved"] = [str(n) for n, _ in und if m["expect"] in str(n)] + [str(n) for n, why in und if "not found in the current source" in str(why)]
             # self-test criterion: the expected obligation is no longer discharged (sat = counter-model; unknown = proof lost)
@@ -262,9 +270,9 @@ def main():
         k = min(2, len(muts))
         import random as _r
         sel = [m["id"] for m in _r.Random(seed).sample(muts, k)] if muts else []
-        mres = run_mutants(registry, muts, models, timeout_ms, seed, only=set(sel), pid=pid)
+        mres = run_mutants(registry, muts, models, timeout_ms, seed, only=set(sel), pid=pid, scans=P.get("scans", ()))
     else:
-        mres = run_mutants(registry, muts, models, timeout_ms, seed, pid=pid)
+        mres = run_mutants(registry, muts, models, timeout_ms, seed, pid=pid, scans=P.get("scans", ()))
     missed = [m for m in mres if m.get("status") in ("missed", "other-obligation", "error")]
     inconclusive = [m for m in mres if m.get("status") == "inconclusive"]
     # bounded / native layers
@@ -298,7 +306,7 @@ def main():
         todo = [n for n, why in undecided if n in led and n in byname and byname[n][1]["result"] in ("unknown", "error")]
         if todo:
             budget = int(min(240000, max(60000, 200 * 1000 * max(led_secs.get(n, 0.5) for n in todo))))
-            rr = retry_alone([byname[n][1]["_smt2"] for n in todo], budget, seed)
+            rr = retry_alone([byname[n][1]["_smt2"] for n in todo], budget, 0)
             for n, res in zip(todo, rr):
                 r, o = byname[n]
                 o["retry"] = {"result": res[0], "secs": round(res[3], 1), "budget_ms": budget}
@@ -320,7 +328,7 @@ def main():
                     lost.append(n)
     violations, known_hits, undec_extra = [], [], []
     for o in failed:
-        hit = [k for k in kf if k.get("obligation") == o["name"]]
+        hit = [k for k in kf if k.get("obligation") == o["name"] or o["name"] in (k.get("obligations") or [])]
         if hit:
             known_hits.append((hit[0], o))
             continue
@@ -343,7 +351,9 @@ def main():
             continue
         violations.append((o, rp, found))
     for nb, v in native_viol:
-        hit = [k for k in kf if k.get("clause") == v.get("clause")]
+        # a known finding names the clause and, where the harness classifies its findings, the input class: a violation of the
+        # same clause with another class is a new violation
+        hit = [k for k in kf if k.get("clause") == v.get("clause") and (k.get("class") is None or k.get("class") == v.get("class"))]
         if hit:
             known_hits.append((hit[0], v))
             continue
@@ -363,7 +373,9 @@ def main():
     ev = {
         "property_id": pid, "tier": tier, "seed": seed, "level": level,
         "coverage": {
-            "obligations": tot, "discharged": dis,
+            # obligations that fail as recorded known findings are reported separately (known_findings_hit), not claimed as proved
+            "obligations": tot - sum(1 for _, o in known_hits if isinstance(o, dict) and o.get("name") and "result" in o), "discharged": dis,
+            "known_finding_obligations": [o["name"] for _, o in known_hits if isinstance(o, dict) and o.get("name") and "result" in o],
             "checker_cmd": "cd /verif && python3-vt pyvc/check.py %s --tier %s" % (pid, tier),
             "trusted_base": TRUSTED_BASE + P.get("trusted_extra", []),
             "explanation": P.get("explanation", ""),
